@@ -329,3 +329,13 @@ def check(ctx, run):  # noqa: F811
     primary_histories_rule(ctx, run, "C17.R8")
     from ..registry import reconfigure_rule
     reconfigure_rule(ctx, run, "C17.R8")
+    # R8x: every sequence of at most 2 (thorough: 3, all classes) cast / simulate / register calls, from a new and from a simulated instrument
+    from ..registry import cast_histories_rule
+    import os as _os
+    P_ = "pfhedge.instruments.primary."
+    if ctx.tier == "thorough":
+        cast_histories_rule(ctx, run, "C17.R8x", 3, jobs=max(1, min(16, _os.cpu_count() or 1)))
+    else:
+        cast_histories_rule(ctx, run, "C17.R8x", 2, classes=[P_ + "brownian.BrownianStock", P_ + "heston.HestonStock"])
+    from ..ctors import rebinding_rule
+    rebinding_rule(ctx, run, "C17.R4", ['pfhedge.instruments'], 20)
